@@ -20,6 +20,10 @@ mod memory;
 mod options;
 mod sealed;
 
+/// Verification hooks.
+#[cfg(feature = "verif")]
+pub mod verif;
+
 #[cfg(test)]
 #[macro_use]
 mod tests;
@@ -881,6 +885,8 @@ impl Meta {
   unsafe fn clear<A: Allocator>(&self, arena: &A) {
     unsafe {
       let ptr = arena.raw_mut_ptr().add(self.ptr_offset as usize);
+      #[cfg(feature = "verif")]
+      crate::verif::mem_write(ptr as usize, self.ptr_size as usize);
       core::ptr::write_bytes(ptr, 0, self.ptr_size as usize);
     }
   }
